@@ -1,7 +1,7 @@
 """C16: training losses are the stated policy-gradient surrogates, with their gradients"""
 from __future__ import annotations
 
-CASES = ("no", "mean", "exponential", "critic", "rollout_extra", "warmup", "scaled_norm", "scaled_int", "pomo", "symnco", "ppo")
+CASES = ("no", "mean", "exponential", "critic", "rollout_extra", "warmup", "warmup_done", "scaled_norm", "scaled_int", "pomo", "symnco", "ppo")
 
 
 def plan(tier, seed):
